@@ -593,7 +593,7 @@ func kdWire(p *message.Proposal) (*message.Proposal, error) {
 
 func (c *Ctx) c07TwoParty(g *Gen, corr *[]corrCase) {
 	s := c.suite("two-party-ike-sa", "oracle",
-		"all 27 combinations x both DH groups: proposal from IKESAKey.ToProposal (even cases) or hand-built from the IANA numbers (odd cases), sent through SA payload Marshal/Unmarshal; initiator: own exponent (random 2048-bit, small, or GenerateRandomNumber) -> GetPublicValue; responder: security.NewIKESAKey(proposal, KEi, Ni|Nr, SPIi, SPIr) under the deterministic reader; initiator: GetSharedKey + GenerateKeyForIKESA. Checks: responder public value = 2^y mod p for the exponent the stdlib's rand.Int yields on the injected octets; both sides' seven keys = reference derived from the real g^ir (own square-and-multiply, RFC prime literal); objects probed on both sides; a message protected by either side is opened by the other (EncodeEncrypt/DecodeDecrypt); non-trivial = every case with SPIi != SPIr; distinct by all inputs")
+		"all 27 combinations x both DH groups: proposal from IKESAKey.ToProposal (even cases) or hand-built from the IANA numbers (odd cases), sent through SA payload Marshal/Unmarshal; initiator: own exponent (random 2048-bit, small, or GenerateRandomNumber) -> GetPublicValue; responder: security.NewIKESAKey(proposal, KEi, Ni|Nr, SPIi, SPIr) under the deterministic reader; initiator: GetSharedKey + GenerateKeyForIKESA. Checks: responder public value = 2^y mod p for the exponent the stdlib's rand.Int yields on the injected octets; both sides' seven keys = reference derived from the real g^ir (own square-and-multiply, RFC prime literal); per combination one more responder run with a peer value constructed so that g^ir has 1..3 leading zero octets; objects probed on both sides; a message protected by either side is opened by the other (EncodeEncrypt/DecodeDecrypt); non-trivial = every case with SPIi != SPIr; distinct by all inputs")
 	per := c.n(1, 30)
 	idx := 0
 	for e := 0; e < 3; e++ {
@@ -604,9 +604,55 @@ func (c *Ctx) c07TwoParty(g *Gen, corr *[]corrCase) {
 						idx++
 						c.c07TwoPartyCase(s, g, suite{e, i, p}, grp, idx, corr)
 					}
+					idx++
+					c.c07ForcedSharedSecret(s, g, suite{e, i, p}, grp, idx)
 				}
 			}
 		}
+	}
+}
+
+// a peer value chosen so that the shared secret g^ir the responder computes is a given t with 1..3 leading zero octets
+// (the responder's exponent y is known: it comes from the injected random octets; KEi = t^(y^-1 mod p-1)): the
+// prf input is g^ir as a string of the modulus length, leading zeros included (RFC 7296 s2.14)
+func (c *Ctx) c07ForcedSharedSecret(s *SuiteStat, g *Gen, st suite, grp, idx int) {
+	P, L := kdPrimes[grp], kdGroupLen[grp]
+	pm1 := new(big.Int).Sub(P, bigN(1))
+	var rnd []byte
+	var y, d *big.Int
+	for tries := 0; d == nil; {
+		retryCap(&tries, "random stream giving an exponent invertible mod p-1")
+		rnd = g.kdRandBuf(256 + g.intn(300))
+		y, _ = kdPredictSecret(rnd)
+		d = new(big.Int).ModInverse(y, pm1)
+	}
+	zeros := 1 + idx%3
+	t := new(big.Int).SetBytes(g.kdRandBuf(L - zeros))
+	kei := kdPad(kdModPow(t, d, P), L)
+	in := g.kdInputs(3 + idx)
+	caseText := fmt.Sprintf("forced-shared-secret grp=%d %s kei=%s rnd=%s", grp, kdIkeLine("ikekeys", st, in.nonce, kdPad(t, L), in.spiI, in.spiR), hx(kei), hx(rnd))
+	setCase(caseText)
+	s.add(caseText, true, "suite:"+st.String(), fmt.Sprintf("group:%d", kdGroupID[grp]), fmt.Sprintf("shared-secret-leading-zero-octets:%d", zeros))
+	prop, err := kdWire(kdHandProposal(g, st, grp))
+	if err != nil {
+		return
+	}
+	var rsa *security.IKESAKey
+	rr := guard(func() (string, error) {
+		var e2 error
+		withRand(rnd, -1, func() { rsa, _, e2 = security.NewIKESAKey(prop, exact(kei), exact(in.nonce), in.spiI, in.spiR) })
+		if e2 != nil {
+			return "", e2
+		}
+		return kdKeysStr(rsa), nil
+	})
+	if chk := new(big.Int).Exp(new(big.Int).SetBytes(kei), y, P); chk.Cmp(t) != 0 {
+		panic("harness: constructed peer value does not give the chosen shared secret")
+	}
+	if want := kdRefIkeKeys(st, in.nonce, kdPad(t, L), in.spiI, in.spiR); rr.String() != "ok "+want.keysStr() {
+		c.violate(Violation{Suite: s.Name, Kind: "property", Index: idx, Class: "two-party:keys-leading-zero-secret",
+			Desc:  fmt.Sprintf("NewIKESAKey with a peer value for which g^ir has %d leading zero octet(s): the keys differ from the RFC computation over g^ir as a string of the modulus length", zeros),
+			Input: caseText, Expected: "ok " + want.keysStr(), Actual: clip(rr.String())})
 	}
 }
 
@@ -1456,6 +1502,23 @@ func propC16(c *Ctx) {
 			id = g.bytes(g.pick(0, 1, 23, 24, 55, 56, 119, 120, 254, 255))
 		case 2:
 			id = []byte{0xff, 0xfe, 0x00, 0xc3, 0x28, 0xed, 0xa0, 0x80, 0xf8}[:g.intn(10)]
+		case 3: // an identity that begins or ends with (or is) a string constant of the source: the function's own label among them
+			if len(dictStrs) > 0 {
+				lit := dictStrs[g.r.Intn(len(dictStrs))]
+				if g.chance(0.5) {
+					lit = "EAP-AKA'"
+				}
+				switch g.intn(3) {
+				case 0:
+					id = append([]byte(lit), g.keyBytesRandom(g.intn(40))...)
+				case 1:
+					id = append(g.keyBytesRandom(g.intn(40)), lit...)
+				default:
+					id = []byte(lit)
+				}
+			} else {
+				id = append([]byte("EAP-AKA'"), g.keyBytesRandom(g.intn(40))...)
+			}
 		default:
 			id = g.keyBytesRandom(g.intn(256))
 		}
